@@ -692,7 +692,8 @@ func replay(bi int, beh []mbt.Step, in *mbt.Input, res *mbt.Result) {
 				continue // one report per kind and shard and step
 			}
 			seen[key] = true
-			if dev, has := pb[key]; has && dev != "?" {
+			// Pre_* / Bug_* switches are not the code: what they predict must not show on the real code
+			if dev, has := pb[key]; has && strings.HasPrefix(dev, "Dev_") {
 				report(si, v, dev)
 			} else {
 				report(si, v, "")
@@ -701,8 +702,14 @@ func replay(bi int, beh []mbt.Step, in *mbt.Input, res *mbt.Result) {
 		}
 		return ok
 	}
+	// Adversarial: the behaviour was generated with a Pre_* switch on (a schedule of the unrepaired code); its
+	// predictions are not the code's, only the property is judged
+	adversarial := in.CfgBool("Adversarial", false)
 	drifted := false
 	driftf := func(si int, f string, a ...any) {
+		if adversarial {
+			return
+		}
 		res.Count("mismatch", 1)
 		if !drifted {
 			drifted = true
@@ -899,7 +906,7 @@ func replay(bi int, beh []mbt.Step, in *mbt.Input, res *mbt.Result) {
 		taint := map[string]string{}
 		for s := 1; s <= len(w.ids)+8; s++ {
 			if w.whyC[s] {
-				taint["repeat:"+strconv.Itoa(s)] = "Dev_CursorAtReaderOnly"
+				taint["repeat:"+strconv.Itoa(s)] = "Pre_CursorAtReaderOnly"
 			}
 		}
 		quiet := 0
